@@ -459,8 +459,20 @@ impl World {
                 let a = *a;
                 match self.refs.get_mut(&a) {
                     Some(r) if r.pending => {
+                        // Not yet accepted: the application has not consented to anything, so the
+                        // datagram is handled like one from an unknown address (connless payloads
+                        // are delivered, everything else is a warning) except that a repeated
+                        // connect request is dropped; nothing is sent, the peer stays as it is.
                         p.pending_feed = Some(r.pid);
-                        p.tag = "C20/pending-peer-answered";
+                        p.tag = "C20/pending-peer-datagram";
+                        let q = parse_with(bytes, None);
+                        if q.err {
+                            p.warns.push(format!("c.{}.read", a));
+                        } else if q.connless {
+                            p.events.push(format!("cl.{}.-.{}", a, &q.text[3..]));
+                        } else if q.connect.is_none() {
+                            p.warns.push(format!("c.{}.unexpected", a));
+                        }
                     }
                     Some(r) => {
                         let pid = r.pid;
@@ -640,14 +652,11 @@ impl World {
             if obs.events.iter().any(|e| e.starts_with("con.")) {
                 fail(o, "C20/second-peer-for-address", format!("events {:?}", obs.events));
             }
-            // the peer may leave (its address sent a close): follow the endpoint
-            if obs.events.iter().any(|e| e.starts_with(&format!("dc.{}.", pid))) {
-                if let Some(a) = self.addr_of(pid) {
-                    self.refs.remove(&a);
-                    self.check_gone(op_txt, a, pid, o);
-                }
+            if !got.is_empty() || obs.events.iter().any(|e| e.starts_with("con.")) {
+                self.checks = false;
+                return;
             }
-            return;
+            // fall through: events, warnings, liveness and deadline are compared as for any call
         }
         if got != want {
             for a in got.keys() {
